@@ -167,10 +167,12 @@ func (r *qLogReader) seekRecord(ctx context.Context, olderThan time.Time) (err e
 		return r.SeekStart()
 	}
 
-	err = r.seekTS(ctx, olderThan.UnixNano())
-	if err == nil {
+	found, err := r.seekTSFound(ctx, olderThan.UnixNano())
+	if err == nil && found {
 		// Read to the next record, because we only need the one that goes
-		// after it.
+		// after it.  Don't skip anything if olderThan is newer than all
+		// records, e.g. when it is the time of an entry from the memory
+		// buffer, since the reader is at the newest record then.
 		_, err = r.ReadNext()
 	}
 
